@@ -34,23 +34,12 @@ static struct parsec_remote_deps_s *vp_key2deps(uintptr_t key);
 #include "parsec/remote_dep_mpi.c"
 #undef remote_dep_dequeue_send
 
-#ifndef NR
-#define NR 3
-#endif
-#ifndef NOUT
-#define NOUT 2
-#endif
-#ifndef TOPO
-#define TOPO 1
-#endif
+#include "scenario.h"
 #ifndef SHORT
 #define SHORT 1
 #endif
 
-/* ------------------------------------------------------------------ scenario */
-static int      root;
-static uint32_t dest[NOUT];            /* absolute rank bitset of each output (root excluded) */
-static uint32_t pmask;                 /* outputs with a non-empty destination set */
+/* ------------------------------------------------------------------ scenario (scenario.h) */
 static int      cur;                   /* rank being simulated */
 
 static int out_size(int k)             /* wire size in bytes of output k's payload */
@@ -60,13 +49,6 @@ static int out_size(int k)             /* wire size in bytes of output k's paylo
 #endif
     return 8 * (k + 1);
 }
-static uint32_t need_of(int r)         /* outputs rank r consumes */
-{
-    uint32_t m = 0;
-    for (int k = 0; k < NOUT; k++) if ((dest[k] >> r) & 1) m |= 1u << k;
-    return m;
-}
-static int rel_of(int r) { return (r - root + NR) % NR; }
 
 /* ------------------------------------------------------------------ observations, indexed by receiving rank */
 static int      rx_cnt[NR];            /* activation messages received */
@@ -262,46 +244,6 @@ static parsec_ontask_iterate_t root_gather(parsec_execution_stream_t *e, const p
     return PARSEC_ITERATE_CONTINUE;
 }
 
-/* expected parent of rank s in the relay forest as documented in parsec_remote_dep_activate:
- * outputs are walked in index order; the ranks of an output that were not part of an earlier
- * output form, in relative-position order, positions 1.. of a tree rooted at the root (position
- * 0) whose shape is given by the topology predicate.  Only used to describe the known-finding
- * class, never as an oracle of the property. */
-static int spec_parent(int s)
-{
-    int first[NR], pos[NR]; uint32_t fwd = 1u << root;
-    for (int r = 0; r < NR; r++) { first[r] = -1; pos[r] = 0; }
-    for (int k = 0; k < NOUT; k++) {
-        int idx = 0;
-        for (int rl = 1; rl < NR; rl++) {
-            int r = (root + rl) % NR;
-            if (((dest[k] >> r) & 1) && !((fwd >> r) & 1)) { idx++; first[r] = k; pos[r] = idx; fwd |= 1u << r; }
-        }
-    }
-    int p = pos[s], pp;
-#if TOPO == 0
-    pp = 0;
-#elif TOPO == 1
-    pp = p - 1;
-#else
-    pp = 0; for (int b = 0; b < 8; b++) if (p & (1 << b)) pp = p ^ (1 << b);   /* clear the leftmost 1 */
-#endif
-    if (pp == 0) return root;
-    for (int r = 0; r < NR; r++) if (first[r] == first[s] && pos[r] == pp) return r;
-    return root;
-}
-/* the recorded failing class: some destination's relay parent is not the root and does not
- * itself consume an output that the destination consumes */
-static int kf_class(void)
-{
-    for (int s = 0; s < NR; s++) {
-        if (s == root || !need_of(s)) continue;
-        int q = spec_parent(s);
-        if (q != root && (need_of(s) & ~need_of(q))) return 1;
-    }
-    return 0;
-}
-
 int main(void)
 {
     /* ---- static world */
@@ -337,19 +279,8 @@ int main(void)
 #endif
 
     /* ---- symbolic scenario */
-    root = IN_RANGE(0, NR - 1);
-    uint32_t all = 0;
-    for (int k = 0; k < NOUT; k++) {
-        dest[k] = IN_UINT(); VASSUME(dest[k] < (1u << NR) && !((dest[k] >> root) & 1));
-        if (dest[k]) pmask |= 1u << k;
-        all |= dest[k];
-    }
-    VASSUME(all != 0);
-#if defined(KF_EXCLUDE_C13_CHAIN_RELAY_DIFFERING_DESTS)
-    VASSUME(!kf_class());
-#elif defined(KF_ONLY_C13_CHAIN_RELAY_DIFFERING_DESTS)
-    VASSUME(kf_class());
-#endif
+    draw_scenario();
+    kf_restrict();
 
     /* ---- the producer's rank: what parsec_release_deps does after the task body */
     cur = root; ctx.my_rank = root;
